@@ -109,8 +109,15 @@ def run(ctx):
             if sfn is not None:
                 series_names = series_names | {sfn.name}
 
-            def hook(nm, node, tr, series_names=series_names, canon_name=canon_name):
+            n_series_args = len(series[1]) if series is not None else None
+
+            def hook(nm, node, tr, series_names=series_names, canon_name=canon_name, n_series_args=n_series_args):
                 if nm in series_names:
+                    # the helper is read as the named series only when it is CALLED like it: zeta(s) / polylog(s, z) with plain
+                    # arguments.  A generic summation helper fed with a generator of terms is another way of computing the sum.
+                    if (n_series_args is not None and len(node.args) != n_series_args) or node.keywords or \
+                            any(isinstance(a, (ast.GeneratorExp, ast.ListComp, ast.Lambda)) for a in node.args):
+                        return tm.atom_poly(("opaque", f"series helper `{nm}` is called with other arguments than {canon_name.get(nm, nm)}({n_series_args} argument(s))"))
                     return tm.atom_poly(("call", canon_name.get(nm, nm), tuple(tr.tr(a) for a in node.args)))
                 return None
             ft = FunTerm(hook)
